@@ -85,6 +85,14 @@ def oracle(prog, s, cl, raw):
     if m and not m.group(2).startswith('tb'): return 'thread %s accessed %s: the table descriptor (or a work item) had already been released by cds_lfht_destroy while the resize worker was still using it' % (m.group(1), m.group(2))
     if m: return 'thread %s accessed %s inside a bucket table that had already been released (free after too few grace periods)' % (m.group(1), m.group(2))
     if re.search(r'Assertion|ABORT', raw): return 'assertion failure inside the library: ' + raw[-300:]
+    # every block the table allocator handed out is released at most once; and once a destroyed table's work is over (nothing can move any more) all of them are
+    freed = re.findall(r'^\d+ note free (\S+)', raw, flags=re.M)
+    for b in set(freed):
+        if freed.count(b) > 1: return 'block %s (a bucket table level, the table descriptor or a work item) is released twice' % b
+    if re.search(r'^\d+ ret destroy 0', raw, flags=re.M) and 'QUIESCENT' in raw:
+        alloc = re.findall(r'^-?\d+ note alloc (\S+)', raw, flags=re.M)
+        left = [b for b in alloc if b not in freed]
+        if left: return 'cds_lfht_destroy() succeeded and all its work is over, yet %s was never released' % ', '.join(left)
     ev = events(raw)
     hist, travs, dups = history(ev)
     ok = oracles.linearizable(hist, frozenset(), ms_apply, maxops=15)
@@ -343,6 +351,12 @@ def lazy_destroy_cases(ctx):
         for j in range(0, 150 if ctx.quick() else 320, 2 if ctx.quick() else 1):
             for k in (9, 7):       # the owner completes all (or all but the last two) of its remaining operations at once, after the worker has taken j steps
                 acases.append((prog, '>0' * 5 + '1b' * j + '>0' * k + '1b' * 3 + '>0>0', ('1', '8', 'o', '0', '0', '1')))
+    # lazy SHRINK over several levels (requested directly: op c0 on an empty 8-bucket table), the table destroyed with the worker j steps into it - in particular
+    # between two levels, during the grace-period wait: every level is released exactly once, by whoever owns it at that point
+    for prog in ('c0Y', 'c1Y', 'A3L3Xc0Y'):
+        npre = 1 + sum(1 for ch in prog[:-1] if ch.isalpha() and ch.isupper() or ch == 'c')
+        for j in range(0, 200 if ctx.quick() else 400, 2 if ctx.quick() else 1):
+            acases.append((prog, '>0' * npre + '1b' * j + '>0' + '1b' * 400, ('8', '8', 'o', '0', '0', '1')))
     return acases
 
 def run_partitioned_faults(ctx, what, pid, n, proto_driver=None):
